@@ -38,8 +38,10 @@ ASSUMPTIONS = [
     'the reversed name does not denote another connection); demote_block only existing names',
     'contract: rename_blocks maps are one-to-one on the present blocks and their image avoids present blocks that are '
     'not themselves renamed (keys that name no block are allowed and ignored)',
-    'contract: minc only where none of the matrix block names it will create exists (the documented "Duplicate MINC '
-    'matrix block name" error leaves a half-edited grid by design)',
+    'minc with a selection that yields a matrix block name twice (block listed twice, two names differing in the first character, '
+    'a colliding matrix_blockname function, a name that exists) must raise the documented "Duplicate MINC matrix block name" error and '
+    'leave a consistent grid; how much of the work is done before the refusal is not asserted (the model is re-read from the grid)',
+    'the object last deleted (block, connection, rock type) may be added again, to the same grid and (a block) to a partner grid',
     'contract: a + b only when every block name present in both is unconnected in a (same reason as add_block); a rock type '
     'name registered in both grids and in use in a is allowed ("the value from b is used"): from such a sum or embed on, '
     'blocks may hold a rock type object other than the registered one of the same name, and only the name-based clause of '
@@ -55,10 +57,10 @@ ASSUMPTIONS = [
 ]
 BOUNDS = {
     'quick': {'empty': 'depth 3 full alphabet + 1 level reduced alphabet',
-              'seeds': '6 seeds: depth 1 full alphabet + 1 level reduced alphabet + 1 level {clean_rocktypes, check(fix)}'},
-    'thorough': {'empty': 'depth 4 full alphabet + 1 level {clean_rocktypes, check(fix)}',
+              'seeds': '6 seeds: depth 1 full alphabet + 1 level reduced alphabet + 1 level {clean_rocktypes}'},
+    'thorough': {'empty': 'depth 4 full alphabet + 1 level {clean_rocktypes}',
                  'seeds': '6 seeds: depth 2 full alphabet; chain3, ring4, datfile + 1 level reduced alphabet; the geometry seeds '
-                          '+ 1 level {clean_rocktypes, check(fix)} (depth 3 everywhere)'},
+                          '+ 1 level {clean_rocktypes} (depth 3 everywhere)'},
 }
 TECHNIQUE = ('explicit-state breadth-first search over edit sequences on the real t2grid against a list/dict reference '
              'model; invariant and refinement checked on every transition')
@@ -105,15 +107,19 @@ def con_payload(n1, n2):
 
 
 class State(object):
-    def __init__(self, seed, grid, model, uni, hist=(), alias=False):
+    def __init__(self, seed, grid, model, uni, hist=(), alias=False, deleted=None):
         self.seed, self.grid, self.model, self.uni, self.hist = seed, grid, model, uni, list(hist)
         # alias: the state descends from a sum / embed of two grids that both register a rock type name in
         # use in the left one; blocks may then hold a rock type object other than the registered one of the
         # same name, and only the statement's name-based clause is judged
         self.alias = alias
+        # the object most recently removed from the grid by delete_block / delete_connection / delete_rocktype,
+        # as ('block' | 'connection' | 'rocktype', object): a caller may hold on to it and add it again
+        self.deleted = deleted
 
     def __deepcopy__(self, memo):
-        return State(self.seed, copy.deepcopy(self.grid, memo), self.model.copy(), self.uni, self.hist, self.alias)
+        grid, deleted = copy.deepcopy((self.grid, self.deleted), memo)      # one memo: shared objects stay shared
+        return State(self.seed, grid, self.model.copy(), self.uni, self.hist, self.alias, deleted)
 
 
 # ------------------------------------------------------------------------------------------------
@@ -158,10 +164,24 @@ def hidden_state(grid):
     return out
 
 
+def deleted_summary(state):
+    if state.deleted is None:
+        return None
+    kind, o = state.deleted
+    g = state.grid
+    if kind == 'block':
+        return (kind, o.name, num(o.volume), o.rocktype.name, g.rocktype.get(o.rocktype.name) is o.rocktype,
+                sorted(o.connection_name))
+    if kind == 'connection':
+        return (kind, [b.name for b in o.block], [g.block.get(b.name) is b for b in o.block], num(o.area), o.direction)
+    return (kind, o.name)
+
+
 def canon(state):
     g = state.grid
     held = [g.rocktype.get(b.rocktype.name) is b.rocktype for b in g.blocklist]    # future renames depend on it
-    return (abstract(g), sorted(g.block), sorted(g.connection), sorted(g.rocktype), held, state.alias, hidden_state(g))
+    return (abstract(g), sorted(g.block), sorted(g.connection), sorted(g.rocktype), held, state.alias, hidden_state(g),
+            deleted_summary(state))
 
 
 def invariant(grid, identity=True):
@@ -463,14 +483,67 @@ def geo_compatible(state):
             all((tuple(c) in m.cinfo) != (tuple(c[::-1]) in m.cinfo) for c in geo.block_connection_name_list))
 
 
-def minc_enabled(model, fractions, blocks):
+def minc_enabled(model, fractions, blocks, namefn=None):
     sel = list(model.blocks) if blocks is None else blocks
     new = []
     for b in sel:
-        if 0. < model.binfo[b]['volume'] < 1.e25:
+        if b in model.binfo and 0. < model.binfo[b]['volume'] < 1.e25:
             for m in range(1, len(fractions)):
-                new.append(str(m) + b[len(str(m)):])
+                new.append(namefn(b, m) if namefn else str(m) + b[len(str(m)):])
     return len(set(new)) == len(new) and not (set(new) & set(model.blocks))
+
+
+def alt_name(state):
+    """A name that differs from a universe name only in its first character, so that both get the same
+    default MINC matrix block names."""
+    return 'Z' + state.uni[1][1:]
+
+
+def collide_name(name, level):
+    """A matrix_blockname function that maps every block to the same name per level."""
+    return '%dzz 1' % level
+
+
+def minc_clash_ops(state, upres):
+    """minc() calls whose selection produces the same matrix block name twice - the same block listed twice,
+    two blocks differing only in the overwritten first character, a matrix_blockname function that maps two
+    blocks to one name - or a name that exists already.  Documented: "Duplicate MINC matrix block name" error."""
+    m = state.model
+    fr = MINC_FRACTIONS[0]
+    act = [n for n in upres if 0. < m.binfo[n]['volume'] < 1.e25]
+    ops = []
+    alt = alt_name(state)
+    if alt in m.blocks and state.uni[1] in m.blocks:
+        ops.append(['minc', fr, [state.uni[1], alt]])
+    if act:
+        ops.append(['minc', fr, [act[0], act[0]]])
+    if len(act) > 1:
+        ops.append(['minc', fr, [act[0], act[1]], 'collide'])
+        ops.append(['minc', MINC_FRACTIONS[1], [act[-1], act[0], act[-1]]])
+    for n in act[:1]:
+        if ('1' + n[1:]) in m.blocks:
+            ops.append(['minc', fr, [n]])
+    return ops
+
+
+def readd_ops(state):
+    """Adding again the very object that was last deleted (to this grid, and a block also to a partner grid)."""
+    if state.deleted is None:
+        return []
+    kind, o = state.deleted
+    g, m = state.grid, state.model
+    ops = []
+    if kind == 'block':
+        if g.rocktype.get(o.rocktype.name) is o.rocktype and (o.name not in m.blocks or not m.cons_of(o.name)):
+            ops.append(['readd_block'])
+        ops.append(['readd_block_to_partner'])
+    elif kind == 'connection':
+        if all(g.block.get(b.name) is b for b in o.block) and o.block[0] is not o.block[1]:
+            ops.append(['readd_connection'])
+    elif kind == 'rocktype':
+        if o.name not in m.rocks or not m.rock_in_use(o.name):
+            ops.append(['readd_rocktype'])
+    return ops
 
 
 def ops_of(state, depth, reduced=False):
@@ -478,7 +551,7 @@ def ops_of(state, depth, reduced=False):
     transpositions / 3-cycles / shift-to-spare, permutations to transpositions) for a deeper level;
     reduced='tiny' is the last level: only the operations that consume derived state."""
     if reduced == 'tiny':
-        return [['clean_rocktypes'], ['check_fix']]
+        return [['clean_rocktypes']] if state.model.rocks else [['check_fix']]
     if reduced:
         return ops_reduced(state)
     m, uni = state.model, state.uni
@@ -550,6 +623,12 @@ def ops_of(state, depth, reduced=False):
             for s in subsets:
                 if minc_enabled(m, fr, s):
                     ops.append(['minc', fr, s])
+        ops += minc_clash_ops(state, upres)
+    ops += readd_ops(state)
+    alt = alt_name(state)
+    if alt not in present:
+        for r in m.rocks[:1]:
+            ops.append(['add_block', alt, r])
     # + and embed
     for which in ('P1', 'P2', 'P3'):
         pg, pm = PARTNER_MODELS[which]
@@ -613,6 +692,8 @@ def ops_reduced(state):
     for s in [[n] for n in upres[:1]]:
         if minc_enabled(m, MINC_FRACTIONS[1], s):
             ops.append(['minc', MINC_FRACTIONS[1], s])
+    ops += minc_clash_ops(state, upres)[:2]
+    ops += readd_ops(state)
     for which in ('P1', 'P3'):
         pg, pm = PARTNER_MODELS[which]
         if all(not m.cons_of(n) for n in pm.blocks if n in present):
@@ -671,7 +752,11 @@ def op_class(state, op):
     if k == 'demote_block':
         return '%d-names%s' % (len(op[1]), '-repeated' if len(set(op[1])) < len(op[1]) else '')
     if k == 'minc':
-        return '%d-levels-%s' % (len(op[1]), 'all' if op[2] is None else 'selection')
+        clash = not minc_enabled(m, op[1], op[2], collide_name if len(op) > 3 else None)
+        return '%d-levels-%s%s' % (len(op[1]), 'all' if op[2] is None else 'selection',
+                                   '-duplicate-matrix-name' if clash else '')
+    if k.startswith('readd'):
+        return 'after-delete' 
     if k == 'plus':
         return 'partner-' + op[1] + ('-overlap' if set(PARTNER_MODELS[op[1]][1].blocks) & set(m.blocks) else '') + \
             ('-common-rocktype-in-use' if common_rock_in_use(m, op[1]) else '')
@@ -722,6 +807,8 @@ def apply_impl(state, op):
     if k == 'add_rocktype':
         g.add_rocktype(t2grids.rocktype(name=op[1]))
     elif k == 'delete_rocktype':
+        if op[1] in g.rocktype:
+            state.deleted = ('rocktype', g.rocktype[op[1]])
         g.delete_rocktype(op[1])
     elif k == 'rename_rocktype':
         g.rename_rocktype(op[1], op[2])
@@ -730,10 +817,14 @@ def apply_impl(state, op):
     elif k == 'add_block':
         g.add_block(mk_block(g, op[1], op[2], volume=vol_of(op[1]) * (1.5 if op[1] in g.block else 1.0)))
     elif k == 'delete_block':
+        if op[1] in g.block:
+            state.deleted = ('block', g.block[op[1]])
         g.delete_block(op[1])
     elif k == 'add_connection':
         g.add_connection(mk_con(g, op[1], op[2]))
     elif k == 'delete_connection':
+        if (op[1], op[2]) in g.connection:
+            state.deleted = ('connection', g.connection[(op[1], op[2])])
         g.delete_connection((op[1], op[2]))
     elif k == 'demote_block':
         g.demote_block(op[1][0] if len(op[1]) == 1 else list(op[1]))
@@ -752,7 +843,22 @@ def apply_impl(state, op):
     elif k == 'check_fix':
         return g.check(fix=True, silent=True), []
     elif k == 'minc':
-        return g.minc(list(op[1]), blocks=None if op[2] is None else list(op[2])), []
+        kw = {'matrix_blockname': collide_name} if len(op) > 3 else {}
+        return g.minc(list(op[1]), blocks=None if op[2] is None else list(op[2]), **kw), []
+    elif k == 'readd_block':
+        g.add_block(state.deleted[1])
+    elif k == 'readd_block_to_partner':
+        pg, pm = t2grids.t2grid(), GridModel()          # another (empty) grid
+        blk = state.deleted[1]
+        pg.add_rocktype(blk.rocktype)
+        pg.add_block(blk)
+        pm.add_rocktype(blk.rocktype.name)
+        pm.add_block(blk.name, blk.rocktype.name, num(blk.volume))
+        return None, [('partner-grid', pg, pm)]
+    elif k == 'readd_connection':
+        g.add_connection(state.deleted[1])
+    elif k == 'readd_rocktype':
+        g.add_rocktype(state.deleted[1])
     elif k == 'plus':
         pg, pm = partner(op[1])
         state.grid = g + pg
@@ -828,7 +934,16 @@ def apply_model(state, op, result, notes):
                 extra.append(('check-fix-rocktype', 'after check(fix=True) blocks %r have rock types %r, not allowed by '
                               'the neighbours\' rock types' % (bad, [after[b] for b in bad])))
     elif k == 'minc':
-        m.minc(list(op[1]), None if op[2] is None else list(op[2]))
+        kw = {'matrix_blockname': collide_name} if len(op) > 3 else {}
+        m.minc(list(op[1]), None if op[2] is None else list(op[2]), **kw)
+    elif k == 'readd_block':
+        o = state.deleted[1]
+        m.add_block(o.name, o.rocktype.name, num(o.volume))
+    elif k == 'readd_connection':
+        o = state.deleted[1]
+        m.add_connection((o.block[0].name, o.block[1].name), [num(x) for x in o.distance], num(o.area), num(o.dircos), o.direction)
+    elif k == 'readd_rocktype':
+        m.add_rocktype(state.deleted[1].name)
     elif k == 'plus':
         state.model = m.plus(partner_model(op[1]))
     elif k == 'embed':
@@ -883,6 +998,14 @@ def step2(state, op, notes=None):
         if err is None:
             return [(sig('documented-error-not-raised'), '%r returned normally; the documentation says it raises' % (op,))], []
         extra, err = [], None
+        if op[0] == 'minc':
+            # the documented refusal may come after part of the work is done (what is left is not specified), but
+            # the grid must be consistent; exploration continues from whatever the real grid holds
+            bad = invariant(state.grid, identity=not state.alias)
+            if bad:
+                return [(sig('after-refusal:' + bad[0]), '%s (after %r raised the documented error)' % (bad[1], op))], []
+            state.model = model_from_grid(state.grid)
+            return [], []
     else:
         if err is not None:
             return [(sig('raises:' + type(err).__name__), '%r raised %r' % (op, err))], []
